@@ -13,8 +13,10 @@ func (p *Player) handlePingPacket(packet pk.Packet) error {
 
 	// Response
 	err := p.c.Conn.WritePacket(pk.Packet{
-		ID:   int32(packetid.ServerboundPong),
-		Data: packet.Data,
+		ID: int32(packetid.ServerboundPong),
+		// a copy: the received buffer goes back to the connection's pool when this handler returns,
+		// long before the send queue has written the answer
+		Data: append([]byte(nil), packet.Data...),
 	})
 	if err != nil {
 		return Error{err}
